@@ -128,6 +128,25 @@ def run(pid, tier):
         o.finding(kind='h2pe', op=ev.get('op'), N=ev.get('N'), K=ev.get('K'), n=ev.get('n'), k=ev.get('k'), out=ev.get('out'), res=str(ev.get('res'))[:80], show=ev.get('show'), event=ev,
                   signature='h2pe:%s:%s:%s:%s' % (ev.get('N'), ev.get('K'), ev.get('n'), ev.get('k')))
     o.samples.append({'kind': 'H2PE region 1: measured acceptance prefix', 'event': json.loads(hlines[0])})
+    # Poisson PD (lambda >= 12), steps S / Q pointwise: after a normal deviate with floor k < l the accepting uniform words are a suffix
+    pdf = wd / 'pd.ndjson'
+    r10 = tlc('MCPd', 'MCPd.cfg', pid, 'pd_cases', workers=1, timeout=1200, heap='2g', pipe_to=[str(RDV), 'btpe-drive', '--out', str(pdf)])
+    require_ok(r10, 'MCPd')
+    s10 = json.loads(r10.consumer_out.strip().splitlines()[-1])
+    if s10['events'] < 100:
+        raise ToolError('btpe-drive (PD): too few events: %s' % s10)
+    r11 = tlc('TraceBtpe', 'TraceBtpe.cfg', pid, 'pd_trace', trace_mode=True, env={'TRACE': pdf}, timeout=1200, heap='4g')
+    require_ok(r11, 'TraceBtpe (PD)')
+    if r11.rejected or r11.violated:
+        raise ToolError('pd trace not consumed: %s' % (r11.rejected or r11.violated))
+    o.add_tlc(r11, 'TraceBtpe: %d measured PD acceptance suffixes at the anchors of PdTable (f64 and f32)' % s10['events'])
+    plines = pdf.read_text().splitlines()
+    o.traces += len(plines)
+    o.extra['pd_drive'] = s10
+    for (ln, ev) in parse_bad(r11.out):
+        o.finding(kind='pd', case=ev.get('case'), ft=ev.get('ft'), k=ev.get('k'), found=ev.get('found'), res=str(ev.get('res'))[:80], show=ev.get('show'), event=ev,
+                  signature='pd:%s:%s:%s' % (ev.get('case'), ev.get('ft'), ev.get('k')))
+    o.samples.append({'kind': 'Poisson PD steps S/Q: measured acceptance suffix', 'event': json.loads(plines[0])})
     o.samples.append({'kind': 'Knuth method: exact P(X = 0) of Poisson<f64>', 'event': {k: v for k, v in json.loads(klines[-5]).items() if k != 'probes'}})
     o.samples.append({'kind': 'exact law of a two-word rejection sampler (f32) over 2^48 tickets', 'event': {k: v for k, v in json.loads(rlines[0]).items() if k != 'probes'}})
     o.samples.append({'kind': 'ticket histogram (real sampler -> TraceDiscrete)', 'event': next(e for e in evs if e['op'] == 'hist' and e['kind'] == 'hin' and e['par'][0] >= 8)})
@@ -140,7 +159,9 @@ def run(pid, tier):
         'the accepting second words are a prefix of relative length (f(y)/f(m) - 1 + |x - x_m|/p1)/c with f the binomial pmf itself (2^-28), and the triangle map of region 1 is exact (2^-44); the exponential tails (regions 3, 4: about 5% of the proposals) and everything between anchors are NOT decided',
         'H2PE is decided POINTWISE in its central region: at the anchors of spec/H2peTable.tla (8 parameter points incl. all reductions K <-> N-K, n <-> N-n and both evaluation paths) the value returned for a region-1 first word is the table\'s and '
         'the accepting second words are a prefix of relative length f(y)/f(m) with f the hypergeometric pmf itself (2^-22); the exponential tails and everything between anchors are NOT decided',
-        'Poisson PD (lambda >= 12) and the f64 instantiations of Zipf/Zeta are floating-point rejection kernels whose laws are NOT decided',
+        'Poisson PD (lambda >= 12) is decided POINTWISE in its main path: at the anchors of spec/PdTable.tla (7 values of lambda, k within 3.2 sigma below l, f64 and f32) the uniform words that return k after a normal deviate with floor k are a suffix of relative length '
+        '1 - min((lambda-k)^3/d, 1 - pmf(k)/hat(k)) with pmf the Poisson pmf itself (2^-24 / 2^-15); the immediate-acceptance step I is structural (k >= l returns without a uniform draw); the double-exponential branch (steps E / H) likewise at 5 exponential deviates per lambda: the accepted uniform words form an interval around the middle word with half-lengths (pmf(k2) - hat(k2)) exp(e) / (2c) (2^-19 / 2^-12); everything between anchors is NOT decided',
+        'the f64 instantiations of Zipf/Zeta are floating-point rejection kernels whose laws are NOT decided',
         'Zipf/Zeta: the documented pmf values are mpmath constants of spec/RejectionTable.tla; the law formula A_k / A assumes two words per iteration and an acceptance region that is a prefix of the acceptance lattice, '
         'both checked (other = 0; probes) - and is itself checked by ticket enumeration on a toy instance (RejToy.tla, with a deliberately wrong variant that must fail)',
         'half a ticket (>= 2^-31) is eleven orders of magnitude above the rounding error of the code\'s recurrences',
